@@ -174,6 +174,11 @@ theorem tie_rpcStrings : (rpcStrings.getD 0 "").toList = sBearer ∧
 
 /-! ### saltedTokenProvider (lib/controller/federation/conn.go) -/
 
+/-- `federation.New`: every remote cluster that is proxied (and is not the cluster itself) gets an
+`rpc.Conn` whose token provider is `saltedTokenProvider(local, id)` for ITS OWN id -/
+theorem tie_fedNew : fedNewText =
+    "{ local := localdb.NewConn(cluster) remotes := map[string]backend{} for id, remote := range cluster.RemoteClusters { if !remote.Proxy || id == cluster.ClusterID { continue } conn := rpc.NewConn(id, &url.URL{Scheme: remote.Scheme, Host: remote.Host}, remote.Insecure, saltedTokenProvider(local, id)) conn.SendHeader = http.Header{\"Via\": {\"HTTP/1.1 arvados-controller\"}} remotes[id] = conn } return &Conn{ cluster: cluster, local: local, remotes: remotes, } }" := rfl
+
 theorem tie_providerConds : providerConds =
     ["if !ok", "switch err", "case nil", "case auth.ErrSalted", "case auth.ErrTokenFormat",
      "case auth.ErrObsoleteToken", "if errStatus(err) == http.StatusUnauthorized", "if err != nil",
